@@ -3676,6 +3676,24 @@ class Kconfig(object):
                 break
 
         self._sanitize_bool_literal_defaults(node)
+        self._drop_nonbool_reverse_deps(node)
+
+    def _drop_nonbool_reverse_deps(self, node: "MenuNode") -> None:
+        """
+        'select' and 'imply' are only supported for bool symbols. On a symbol of another type, they are ignored
+        (with a note), the same way the pyparsing-based parser ignores them.
+        """
+        if type(node.item) is not Symbol or not node.item.orig_type or node.item.orig_type == BOOL:  # type: ignore[union-attr]
+            return
+        for kind, entries in (("select", node.selects), ("imply", node.implies)):
+            if entries:
+                log.note(
+                    f"{escape(node.filename)}:{node.linenr}: "  # type: ignore[arg-type]
+                    f"{node.item.name} of type {TYPE_TO_STR[node.item.orig_type]} "  # type: ignore[union-attr]
+                    f"has '{kind}' option, which is only supported for boolean symbols - option ignored"
+                )
+        node.selects = []
+        node.implies = []
 
     def _sanitize_bool_literal_defaults(self, node: "MenuNode") -> None:
         """
